@@ -4,6 +4,8 @@ def _classify(op, a, b):
     """op = the request line, a = the implementation's claim, b = the independent reader's verdict"""
     if op.startswith("c02 part"):
         return ("part-not-wellformed-xml", b)
+    if op.startswith("c02 bridge"):
+        return ("cell-bridge-differs", b[:400])
     m = re.match(r"errs=(\d+);(.*?);view=(.*)$", b, re.S)
     if not m:
         return ("independent-reader-differs", b[:300])
@@ -40,24 +42,57 @@ PROP = {
     "stateful": True,
     "disagreement_is_oracle": True,
     "classify_disagreement": _classify,
-    "level_text": "Translation validation by an independent reader executed in Lean, plus theorems for the unbounded pieces. Every part of every package the "
+    "level_text": "Translation validation by an independent reader executed in Lean, plus theorems for the unbounded pieces; the central clause about CELLS is now a theorem about the writer model, tied to the files on every run. "
+                  "Every part of every package the "
                   "library writes (generated workbooks with cells of all kinds, hyperlinks, merges, defined names, comments, validations, conditional formats, "
                   "protection, hidden sheets, special-character names; re-saved corpus files; standard and light compression) is lexed by an XML 1.0 reader and decoded "
                   "by an OPC/SpreadsheetML reader written from the standards (Umya.Spec.Xml / Umya.Spec.Sml): well-formedness, content types, relationship resolution, "
                   "unique ids/names, schema child order, ascending rows/cells, index bounds; the decoded view must equal the in-memory workbook. Theorems (all inputs): "
-                  "the writer's escaping is read back exactly by the independent XML reader (C02_text_channel, C02_attr_channel, sharp by *_fails), the cells handed "
-                  "to the sheet writer are exactly the existing cells in strictly ascending order for every reachable sheet (C02_sheetdata_ascending, from C10), and "
-                  "hyperlink relationship ids pair every cell with its own target for any number of links (C02_hyperlink_pairing; C02_unordered_pairing_fails documents the repaired defect).",
-    "level_note": "The package-level claim is validated per written file, not proved for all workbooks: no Lean model of the whole writer exists. Trusted: the Lean reader "
-                  "(spec, ~600 lines), the zip crate, the harness view function. Parts the reader does not interpret (theme, drawings, charts, VML, styles body) are checked "
+                  "the writer's escaping is read back exactly by the independent XML reader for both text writers and for attributes (C02_text_channel, "
+                  "C02_text_channel_conversion, C02_attr_channel, sharp by *_fails), the cells handed "
+                  "to the sheet writer are exactly the existing cells in strictly ascending order for every reachable sheet (C02_sheetdata_ascending, from C10), "
+                  "hyperlink relationship ids pair every cell with its own target for any number of links (C02_hyperlink_pairing; C02_unordered_pairing_fails documents the repaired defect). "
+                  "CELL CLAUSE (proved for the writer model of Umya/Model/CellXml.lean, the model C01 ties to the code): every <c> that Cell::write_to produces, on every branch "
+                  "(<c r s/>, t=s through the shared table, t=str, t=b, t=e, numbers, <v/>, with and without <f>), rendered as the element tree an XML 1.0 reader delivers "
+                  "(Umya/Model/CellNode.lean), is decoded by the independent decodeCell to exactly the cell's reference, kind, value text, formula text and style index, with no "
+                  "violation, against the shared strings the independent reader takes from the part written for ANY later table state (C02_cell_decodes, C02_table_only_grows, "
+                  "C02_si_decodes, C02_sst_decodes); lifted to a sheet and to the whole package for any number of sheets and cells against the FINAL shared-string part "
+                  "(C02_sheet_cells_decode, C02_book_cells_decode, C02_book_cell_decodes; the writer is total for columns >= 1: C02_cell_written, C02_book_written); the decoded "
+                  "reference is the cell's own column and row under the decoder's A1 reading (C02_cell_position); text content is rendered as the lexer delivers it (C02_chardata_lexed). "
+                  "No hypothesis on characters, numbers, sizes or table state. Kinds follow the table text/rich->s, number->n, bool->b, error->e, blank->'' except for a formula "
+                  "without cached value (reads as an empty string result; equal under the view's normalisation: C02_cell_kind_normalised) and an unresolved lazy value (reads as an "
+                  "empty number): C02_cell_decodes_plain_partial / C02_cell_kind_partial (hypothesis plainKind) with witnesses C02_cell_uncached_formula_fails, C02_cell_lazy_fails. "
+                  "Tie of the cell clause to the code on every run (request `c02 bridge`): (a) every <c> parsed by the independent XML reader from the real sheet parts is tree-equal to "
+                  "cellNode of the fact a non-unescaping scanner read from the same bytes; (b) the shared strings read from the real part equal those of the rendered <si> facts; "
+                  "(c) for generated workbooks the writer model run on the in-memory cells yields exactly these cell facts and <si> texts; (d) decodeCell on the real trees equals fileView of the model cells.",
+    "level_note": "The package-level claim as a whole is validated per written file, not proved for all workbooks: there is no Lean model of the whole writer (parts list, "
+                  "relationships, content types, workbook.xml, the <row> wrapper, rels-based features). The cell theorems are about the fact-level model of the cell writer "
+                  "(element, attributes, raw text content) and a rendering of those facts as element trees; the tag syntax quick-xml emits is not modelled at character level, "
+                  "so the step bytes -> tree is checked per file by the `c02 bridge` request (tree equality of every parsed <c> with the rendered fact), not proved. "
+                  "Trusted: the Lean reader (spec, ~600 lines), the rendering Umya/Model/CellNode.lean (~150 lines, checked against the real parse on every run), the zip crate, "
+                  "the harness view function and C01's fact scanner. Parts the reader does not interpret (theme, drawings, charts, VML, styles body) are checked "
                   "for XML well-formedness, content type and relationships only.",
-    "expect_theorems": ["C02_text_channel", "C02_attr_channel", "C02_escaped_is_inert", "C02_sheetdata_ascending", "C02_hyperlink_pairing"],
+    "expect_theorems": ["C02_channels_match_source", "C02_text_channel", "C02_text_channel_conversion", "C02_attr_channel", "C02_escaped_is_inert", "C02_sheetdata_ascending",
+                        "C02_hyperlink_pairing",
+                        "C02_table_only_grows", "C02_si_decodes", "C02_sst_decodes", "C02_cell_decodes", "C02_cell_written",
+                        "C02_cell_kind_partial", "C02_cell_decodes_plain_partial", "C02_cell_uncached_formula_fails", "C02_cell_lazy_fails", "C02_cell_kind_normalised",
+                        "C02_sheet_cells_decode", "C02_book_cells_decode", "C02_book_cell_decodes", "C02_book_written",
+                        "C02_chardata_lexed", "C02_cell_position"],
     "rule": "case = one workbook (generated from a per-case seed, or a corpus file re-saved) written with the standard or the light writer; every part is one request; "
-            "the final request compares violations (must be none) and the decoded view. non-trivial = every part / decode request; distinct = distinct request line",
-    "trusted_base": TB_COMMON + ["independent reader Umya/Spec/XmlLex.lean + Umya/Spec/Sml.lean (executed, not verified against the standards' text)", "zip crate"],
+            "the `decode` request compares violations (must be none) and the decoded view; the final `bridge` request carries the cell / <si> facts scanned from the real parts "
+            "and (generated workbooks) the in-memory cells, and must answer ok. non-trivial = every part / decode / bridge request; distinct = distinct request line",
+    "trusted_base": TB_COMMON + ["independent reader Umya/Spec/XmlLex.lean + Umya/Spec/Sml.lean (executed, not verified against the standards' text)", "zip crate",
+                                  "rendering of written facts as element trees Umya/Model/CellNode.lean (checked against the real parse by `c02 bridge` on every run)",
+                                  "the writer model Umya/Model/CellXml.lean is the code's (C01's correspondence stream; re-checked on C02's workbooks by `c02 bridge` (c))",
+                                  "harness/src/c01.rs::package_facts (non-unescaping scanner of the real parts)"],
     "assumptions": [],
-    "partial_clauses": ["whole-package well-formedness and decode equality are validated per file, not proved for all workbooks",
+    "partial_clauses": ["whole-package well-formedness and decode equality are validated per file, not proved for all workbooks; proved for all inputs: the cell clause at the level of the "
+                        "writer model's facts (C02_cell_decodes … C02_book_cell_decodes), the escaping channels, sheetData order, rId pairing",
+                        "cells: shared / array formulas, inline strings (<is>), cm/vm/ph attributes are outside the modelled fragment (counted as outside-fragment by the bridge; validated per file by decode)",
+                        "cells: the <row> wrapper, fillRefs / expandShared of decodeSheet and the style table behind the s index are not part of the cell theorems (validated per file)",
+                        "cells: the serialisation of tags by quick-xml (bytes -> element tree) is checked per file (tree equality in `c02 bridge`), not proved",
                         "drawings, charts, tables, pivot tables, VML bodies, theme, docProps: XML well-formedness / content type / relationships only",
                         "macro payload (vbaProject.bin) only via the corpus .xlsm files"],
-    "technique": "independent XML/OPC/SpreadsheetML reader executed in Lean on every written package (translation validation) + Lean theorems on the escaping channel, sheetData order and rId pairing",
+    "technique": "independent XML/OPC/SpreadsheetML reader executed in Lean on every written package (translation validation) + Lean theorems on the escaping channels, sheetData order, rId pairing "
+                 "and the cell clause (writer model -> rendered element tree -> independent decoder = model cell, for all cells and table states), the latter tied to the real parts by tree equality on every run",
 }
